@@ -29,6 +29,7 @@ func runC02(c *Ctx, r *Report) {
 		r.Floor("C02-e/index", 3, "index pairs in GetMatch and WrapIndices")
 		r.Floor("C02-e/slice", 3, "line slices in GetMatch and WrapIndices")
 	}
+	c02ContiguousCopy(c, r)
 	sites := findSeparatorSites(c, extractorPkg)
 	emitSeparatorSites(c, r, "C02-e/list-view", sites, nil)
 	r.Floor("C02-e/list-view", 1, "SliceSpaceExpressionContext.array")
@@ -536,4 +537,85 @@ func c02Flags(c *Ctx, r *Report) {
 	}
 	r.Floor(rule, 5, "three flag flows and two pattern flows")
 	_ = fmt.Sprint
+}
+
+// c02ContiguousCopy (C02-e/contiguous-copy): colouring copies the line into
+// the output piecewise. With colour codes removed the result is byte-identical
+// to the line only if the pieces are consecutive: every piece s[lo:hi] written
+// inside the group loop starts at the running cursor, or at a position known
+// (dominating facts) to be >= the cursor, and the cursor is then moved to hi.
+func c02ContiguousCopy(c *Ctx, r *Report) {
+	const rule = "C02-e/contiguous-copy"
+	fi := c.MustFunc(r, rule, "rare/pkg/color", "WrapIndices")
+	if fi == nil {
+		return
+	}
+	info := fi.Pkg.TypesInfo
+	var sParam types.Object
+	if fi.Decl.Type.Params != nil && len(fi.Decl.Type.Params.List) > 0 && len(fi.Decl.Type.Params.List[0].Names) > 0 {
+		sParam = info.Defs[fi.Decl.Type.Params.List[0].Names[0]]
+	}
+	var loop *ast.ForStmt
+	for _, st := range fi.Decl.Body.List {
+		if fs, ok := st.(*ast.ForStmt); ok {
+			loop = fs
+		}
+	}
+	if sParam == nil || loop == nil {
+		r.Undecided(rule, fi.Name, "group loop", c.Pos(fi.Decl.Pos()), "line parameter or group loop not found")
+		return
+	}
+	vi := analyseVars(info, fi.Decl)
+	fg := NewFGraph(fi.Decl.Body, info)
+	fg.SolveFacts(vi)
+	pr := &prover{info: info, vi: vi, fg: fg, body: fi.Decl.Body}
+	// pieces of the line written inside the loop
+	type piece struct {
+		sx   *ast.SliceExpr
+		call *ast.CallExpr
+	}
+	var pieces []piece
+	ast.Inspect(loop.Body, func(x ast.Node) bool {
+		ce, ok := x.(*ast.CallExpr)
+		if !ok || len(ce.Args) != 1 {
+			return true
+		}
+		if sx, ok := ast.Unparen(ce.Args[0]).(*ast.SliceExpr); ok && identObj(info, sx.X) == sParam {
+			pieces = append(pieces, piece{sx, ce})
+		}
+		return true
+	})
+	// the cursor: a variable declared outside the loop, assigned inside it, used as low bound of a piece
+	var cursor types.Object
+	for _, p := range pieces {
+		if o, ok := identObj(info, p.sx.Low).(*types.Var); ok && o != nil && !within(loop, o.Pos()) {
+			cursor = o
+		}
+	}
+	if cursor == nil || len(pieces) == 0 {
+		r.Bad(rule, fi.Name, "cursor", c.Pos(loop.Pos()), "no running cursor found: the pieces of the line written by the group loop are not anchored to the end of the previous piece")
+		return
+	}
+	for _, p := range pieces {
+		lo, hi := p.sx.Low, p.sx.High
+		facts := fg.FactsAtPos(p.call.Pos())
+		startsAtCursor := identObj(info, lo) == cursor
+		okStart := startsAtCursor || (lo != nil && pr.holdsText(exprStr(lo)+" >= "+cursor.Name(), facts))
+		// a piece that does not start at the cursor must be preceded by the gap piece s[cursor:lo] ... accept: lo >= cursor known
+		r.Check(okStart, rule, fi.Name, exprStr(p.sx), c.Pos(p.sx.Pos()), "order: the piece starts at (or is known not to start before) the end of what was already written",
+			"the piece "+exprStr(p.sx)+" of the line is written although it may start before the position already written ("+cursor.Name()+"): with nested or out-of-order groups that text is emitted twice, so the output with colour codes removed is no longer the matched line")
+		if !startsAtCursor && hi != nil {
+			// cursor moves to hi afterwards
+			moved := false
+			ast.Inspect(loop.Body, func(y ast.Node) bool {
+				if as, ok := y.(*ast.AssignStmt); ok && len(as.Lhs) == 1 && len(as.Rhs) == 1 && identObj(info, as.Lhs[0]) == cursor && exprStr(as.Rhs[0]) == exprStr(hi) && as.Pos() > p.call.Pos() {
+					moved = true
+				}
+				return true
+			})
+			r.Check(moved, rule, fi.Name, cursor.Name()+" = "+exprStr(hi), c.Pos(p.call.Pos()), "order: the cursor moves to the end of the piece just written",
+				"after writing "+exprStr(p.sx)+" the cursor is not moved to "+exprStr(hi)+": the following text is written again")
+		}
+	}
+	r.Floor(rule, 3, "gap piece, group piece, cursor move")
 }
